@@ -323,3 +323,88 @@ Definition to_bond_stereo_sel (center : option (Z * Z)) (n m : Z) (env : option 
                end
       end
   end.
+
+(* ------------------------------------------------------------------------------------------------ *)
+(* whole molecule: configuration labels.
+   chython side: atoms as (number, label) in enumeration order, bonds as (n, m, label) in enumeration order, the registries
+   stereogenic_tetrahedrons [th], _stereo_cis_trans_centers [centers], stereogenic_cis_trans [ct] as association lists.
+   RDKit side: the atom of the k-th chython atom has index k; [nb k] = GetNeighbors() of atom k as indices, in RDKit's order. *)
+Definition tag_name (o : option string) : string := match o with Some t => t | None => "CHI_UNSPECIFIED" end.
+
+(* to_rdkit_molecule, third loop over all atoms; inverted[idx] = the idx-th atom number *)
+Fixpoint to_tags (isH : Z -> bool) (th : list (Z * list Z)) (nums : list Z) (nb : Z -> list Z) (k : Z)
+         (atoms : list (Z * option bool)) : pyres (list (option string)) :=
+  match atoms with
+  | [] => Ok []
+  | (n, s) :: r =>
+      match to_chiral_tag isH (zget th n) (map (fun j => znth nums j 0) (nb k)) s with
+      | Err e => Err e
+      | Ok t => match to_tags isH th nums nb (k + 1) r with Err e => Err e | Ok ts => Ok (t :: ts) end
+      end
+  end.
+
+(* from_rdkit_molecule: (idx, [x.GetIdx() for x in GetNeighbors()], tag) collected in the first loop, then
+   mol.atom(n)._stereo = _translate_tetrahedron_sign(n, [mapping[x] for x in env], s) with mapping[i] = i + 1 *)
+Fixpoint from_tags (isH : Z -> bool) (th : list (Z * list Z)) (nb : Z -> list Z) (k : Z) (tags : list string)
+  : pyres (list (Z * option bool)) :=
+  match tags with
+  | [] => Ok []
+  | t :: r =>
+      match from_chiral_tag isH (zget th (k + 1)) (map (fun j => j + 1) (nb k)) t with
+      | Err e => Err e
+      | Ok l => match from_tags isH th nb (k + 1) r with Err e => Err e | Ok ls => Ok ((k + 1, l) :: ls) end
+      end
+  end.
+
+Fixpoint pget {V : Type} (d : list (Z * Z * V)) (k : Z * Z) : option V :=
+  match d with
+  | [] => None
+  | (a, b, v) :: r => if (fst k =? a) && (snd k =? b) then Some v else pget r k
+  end.
+
+(* to_rdkit_molecule, fourth loop over data.bonds(): per bond None or (reference atom at n, reference atom at m, label), in
+   chython numbers (the code passes them through `mapping`) *)
+Definition to_bond_labels (centers : list (Z * (Z * Z))) (ct : list (Z * Z * (Z * Z * option Z * option Z)))
+           (bonds : list (Z * Z * option bool)) : pyres (list (option (Z * Z * string))) :=
+  mapM (fun b => let '(n, m, s) := b in
+                 to_bond_stereo_sel (zget centers n) n m (match zget centers n with Some c => pget ct c | None => None end) s) bonds.
+
+(* from_rdkit_molecule: for every RDKit bond (begin idx, end idx, label, stereo atom idx at begin, at end):
+   mol.bond(n, m)._stereo = _translate_cis_trans_sign(n, m, mapping[nn], mapping[nm], s == _cis) *)
+Definition from_bond_labels (isH : Z -> bool) (ct : list (Z * Z * (Z * Z * option Z * option Z)))
+           (rbonds : list (Z * Z * string * Z * Z)) : pyres (list (Z * Z * option bool)) :=
+  mapM (fun b => let '(bi, ei, label, sb, se) := b in
+                 match from_bond_stereo isH (pget ct (bi + 1, ei + 1)) (pget ct (ei + 1, bi + 1)) (sb + 1) (se + 1) label with
+                 | Err e => Err e
+                 | Ok l => Ok (bi + 1, ei + 1, l)
+                 end) rbonds.
+
+(* ------------------------------------------------------------------------------------------------ *)
+(* conformers, as the code builds them from the dictionaries in data._conformers:
+     conf = Conformer()
+     for n, xyz in c.items(): conf.SetAtomPosition(mapping[n], xyz)      -- KeyError for a key that is no atom
+     mol.AddConformer(conf, assignId=True)                               -- RuntimeError unless one position per atom
+   SetAtomPosition(idx, p) grows the conformer to idx + 1 positions, the new ones (0, 0, 0). *)
+Fixpoint set_pos (ps : list pos3) (i : nat) (p : pos3) : list pos3 :=
+  match i, ps with
+  | O, [] => [p]
+  | O, _ :: r => p :: r
+  | S k, [] => (czero, czero, czero) :: set_pos [] k p
+  | S k, q :: r => q :: set_pos r k p
+  end.
+Fixpoint fill_conf (mp : list (Z * Z)) (ps : list pos3) (c : list (Z * pos3)) : pyres (list pos3) :=
+  match c with
+  | [] => Ok ps
+  | (n, p) :: r => match midx mp n with
+                   | Err e => Err e
+                   | Ok i => fill_conf mp (set_pos ps (Z.to_nat i) p) r
+                   end
+  end.
+Definition to_conformers_dict (nums : list Z) (xy : list (Z * Z)) (confs : list (list (Z * pos3))) : pyres (list conformer) :=
+  match mapM (fun c => match fill_conf (index_map nums) [] c with
+                       | Err e => Err e
+                       | Ok ps => if Nat.eqb (List.length ps) (List.length nums) then Ok (true, ps) else Err OtherError
+                       end) confs with
+  | Err e => Err e
+  | Ok cs => Ok ((false, map (fun p => (fst p, snd p, czero)) xy) :: cs)
+  end.
